@@ -9,6 +9,8 @@ CFG = dict(
         "Inst.gen_durable_atomic: put_durable / delete_durable apply inside the WAL guard's scope (log_apply_atomic)",
         "Inst.gen_emb_ops_locked: the embedding-class arms of put/get/delete/exists hold the key's lock stripe",
         "Inst.gen_scan_single_step: MetadataSlab::scan with a non-empty prefix copies keys and values under one acquisition of the shard lock",
+        "Inst.gen_durable_ids_in_log_order: put_durable allocates entity ids under the WAL guard",
+        "Inst.gen_bloom_add_atomic: BloomFilter::add sets each bit with one atomic fetch_or",
         "Inst.gen_cache_get_key_checked: CacheRing::get compares the slot entry's key before returning its value",
     ],
     crate="nvh_c11", release=True,
